@@ -20,7 +20,8 @@ POPULATE = (("memo", 0, "s", None), ("memo", 1, "X", None), ("memo", 2, "t", "k1
             ("wmeta", 0, "log", False), ("wmeta", 2, "aux", True))
 
 # "+damaged": the data object of one memoized call (key 0) was lost before the store is opened read-only
-VARIANTS = ["arg", "config", "cluster-config", "arg+cache", "cluster-config+cache", "mem", "arg+damaged", "cluster-config+cache+damaged"]
+VARIANTS = ["arg", "config", "cluster-config", "arg+cache", "cluster-config+cache", "mem", "arg+damaged", "cluster-config+cache+damaged",
+            "config-reused", "cluster-config-reused"]  # "-reused": the configuration dict object had already been used to build a backend
 
 _roots = {}
 
@@ -34,8 +35,11 @@ def _scratch(tag):
 
 def set_env(cluster):
     import twosigma.memento as m
+    from twosigma.memento.storage_memory import MemoryStorageBackend
 
-    repo = m.ConfigurationRepository(name="vfrepo", clusters={"vfc": cluster})
+    # a second, ordinary cluster (memory storage, local runner) for callers living elsewhere
+    other = m.FunctionCluster(name="vfo", storage=MemoryStorageBackend())
+    repo = m.ConfigurationRepository(name="vfrepo", clusters={"vfc": cluster, "vfo": other})
     m.Environment.set(m.Environment(name="vfenv", base_dir=os.path.dirname(_scratch("env")), repos=[repo]))
 
 
@@ -74,12 +78,17 @@ class RORun:
                 be = FilesystemStorageBackend(path=w.dpath, metadata_path=w.mpath, memory_cache_mb=cache, read_only=True)
                 cluster = m.FunctionCluster(name="vfc", storage=be)
             elif variant.startswith("config"):
-                be = FilesystemStorageBackend(config={"path": w.dpath, "metadata_path": w.mpath, "readonly": True})
+                cfg = {"path": w.dpath, "metadata_path": w.mpath, "readonly": True}
+                if "reused" in variant:
+                    FilesystemStorageBackend(config=cfg)  # the caller's dict must still say what it said
+                be = FilesystemStorageBackend(config=cfg)
                 cluster = m.FunctionCluster(name="vfc", storage=be)
             else:
                 sc = {"type": "filesystem", "path": w.dpath, "metadata_path": w.mpath, "readonly": True}
                 if cache:
                     sc["memory_cache_mb"] = cache
+                if "reused" in variant:
+                    m.FunctionCluster(config={"name": "vfc", "storage": sc})
                 cluster = m.FunctionCluster(config={"name": "vfc", "storage": sc})
                 be = cluster.storage
             self.roots = [w.dpath, w.mpath]
@@ -322,6 +331,20 @@ def null_seq(args):
                     elif raised is None:
                         bad = ("not-refused", "null runner returned %r for %s instead of refusing" % (got, op))
                 obs.append((kind, nb, type(raised).__name__ if raised else None))
+            elif kind in ("nested-other", "nested-same"):
+                # the refused function is called from inside a running function (of another cluster with the local runner,
+                # or of the same cluster run through force_local): it still must not execute
+                f = fx.outer_other if kind == "nested-other" else fx.outer_same.force_local()
+                try:
+                    got = f(op[1])
+                except Exception as e:
+                    got = "EXC:%r" % (e,)
+                ran = [b[0] for b in audit.bodies()]
+                if "fn" in ran:
+                    bad = ("body-ran", "null runner: the body of fn ran when called from inside %s (%s)" % (kind, ran))
+                elif got != ["outer", "refused"]:
+                    bad = ("not-refused", "null runner: nested call returned %r instead of being refused" % (got,))
+                obs.append((kind, len(ran), None))
             elif mode.startswith("null-storage"):
                 if kind == "memoize":
                     be.memoize(None, storeh.mk_memento("fn#1", op[1], "v", 1), "v")
@@ -360,7 +383,7 @@ def run(ctx):
     ctx.rule = ("read-only: BFS over histories of storage ops (memoize, lookups, reads, listings, forget call/function/"
                 "everything, metadata writes plain/with-data) and function-level ops (calls of memoized and un-memoized "
                 "functions with modifiers, forget, forget_all, put_metadata, forget_cluster) on a pre-populated store "
-                "opened read-only in 6 ways (2 more with the data object of one call lost beforehand); oracle after each transition: no mutating audit event under the roots, tree "
+                "opened read-only in 6 ways (2 more with the data object of one call lost beforehand, 2 more from a configuration dict that was used before); oracle after each transition: no mutating audit event under the roots, tree "
                 "digest unchanged, reads answer as the model, writes skipped or rejected. null storage/runner: every "
                 "operation sequence to depth 3 (no merging). distinct = canonical (cache, ghost-entry) states and "
                 "distinct observation vectors.")
@@ -381,7 +404,7 @@ def run(ctx):
     nd = 3
     tasks = []
     for mode in ("null-storage", "null-storage-config", "null-runner", "null-runner-config"):
-        ops = NULL_OPS if mode.startswith("null-storage") else [o for o in NULL_OPS if o[0] in ("call", "ignore", "ctx", "batch")]
+        ops = NULL_OPS if mode.startswith("null-storage") else [o for o in NULL_OPS if o[0] in ("call", "ignore", "ctx", "batch")] + [("nested-other", 1), ("nested-other", 2), ("nested-same", 2)]
         for d in range(1, nd + 1):
             for seq in itertools.product(ops, repeat=d):
                 tasks.append((mode, seq))
